@@ -502,6 +502,14 @@ func replay() {
 		return
 	}
 	fmt.Printf("replay %+v\n", c)
+	if c.Sub == "sweep" {
+		var a sweepCase
+		mc.LoadReplay(chk.ReplayFile(), &a)
+		l := chk.NewLocal()
+		defer l.Merge()
+		sweepOne(l, a)
+		return
+	}
 	if c.Sub == "asym" {
 		var a asymCase
 		mc.LoadReplay(chk.ReplayFile(), &a)
